@@ -27,6 +27,8 @@ pub struct Ident {
     pub source: u16,
     /// 0 = not broadcast, else the broadcast destination address
     pub broadcast: u16,
+    /// physical source (emulated UDP port), 0 = none
+    pub port: u16,
 }
 
 #[derive(Clone, Debug, PartialEq, Eq)]
